@@ -364,7 +364,7 @@ def run_check(prop_id, legs, level="exploration", tier=None, assumptions=None, e
 
     # minimise and write replays
     legs_by_name = {l.name: l for l in legs}
-    replay_dir = os.path.join(env.VERIF_DIR, "replays")
+    replay_dir = os.path.join(env.OUT_DIR, "replays")
     violations = []
     for bucket in sorted(failures):
         leg_name, case, detail = failures[bucket]
@@ -418,8 +418,8 @@ def run_check(prop_id, legs, level="exploration", tier=None, assumptions=None, e
         "property_id": prop_id, "tier": tier, "seed": env.seed(), "level": level, "coverage": coverage,
         "assumptions": assumptions or [], "wall_s": round(time.time() - t0, 2), "violations": len(violations),
     }
-    os.makedirs(os.path.join(env.VERIF_DIR, "evidence"), exist_ok=True)
-    with open(os.path.join(env.VERIF_DIR, "evidence", f"{prop_id}.json"), "w") as f:
+    os.makedirs(os.path.join(env.OUT_DIR, "evidence"), exist_ok=True)
+    with open(os.path.join(env.OUT_DIR, "evidence", f"{prop_id}.json"), "w") as f:
         json.dump(evidence, f, indent=1, sort_keys=True, default=str)
 
     for bucket, n in sorted(known_hits.items()):
